@@ -1,21 +1,47 @@
 #!/venv/bin/python
-"""recheck_seeds.py [quick|thorough]: apply every seeded/<ID>-<k>/patch.diff to a scratch worktree and run the check of
-its property; report the ones that are no longer caught.  Writes seeded/RECHECK.txt."""
+"""recheck_seeds.py [names...]: apply every seeded/<ID>-<k>/patch.diff to a scratch worktree of /repo HEAD and run the
+check of its property (quick, then thorough if quick is silent); report the ones that are no longer caught.
+Writes seeded/RECHECK.txt and seeded/RECHECK.json (read by tools/matrix.py).  A seed whose patch no longer applies because
+a later fix: commit rewrote the code it changed is listed as superseded (meta.json: superseded_by_fix)."""
 import subprocess, glob, os, sys, json
-tier = sys.argv[1] if len(sys.argv) > 1 else 'quick'
-out = []
-missed = 0
-for d in sorted(glob.glob('/verif/seeded/C*-*')):
+from concurrent.futures import ThreadPoolExecutor
+only = set(sys.argv[1:])
+res = {}
+old = {}
+if only and os.path.exists('/verif/seeded/RECHECK.json'):
+    old = json.load(open('/verif/seeded/RECHECK.json'))
+
+
+def one(d):
     name = os.path.basename(d)
     prop = name.split('-')[0]
-    r = subprocess.run(['/verif/tools/mutant.py', d + '/patch.diff', '--props', prop, '--tier', tier, '--nosuite'], capture_output=True, text=True)
-    last = [l for l in r.stdout.split('\n') if l.startswith(('DETECTED', 'PATCH'))]
-    line = '%s %s' % (name, last[0] if last else 'ERROR ' + r.stdout[-200:])
-    if 'DETECTED-BY ' + prop not in line:
-        missed += 1
-        line += '   <-- not caught by its own property check'
-    out.append(line)
-    print(line, flush=True)
-out.append('%d seeds, %d not caught by their own property check (tier %s)' % (len(out), missed, tier))
-open('/verif/seeded/RECHECK.txt', 'w').write('\n'.join(out) + '\n')
-print(out[-1])
+    meta = json.load(open(d + '/meta.json')) if os.path.exists(d + '/meta.json') else {}
+    if meta.get('superseded_by_fix'):
+        return name, {'status': 'superseded', 'by': meta['superseded_by_fix']}
+    for tier in ('quick', 'thorough'):
+        r = subprocess.run(['/verif/tools/mutant.py', d + '/patch.diff', '--props', prop, '--tier', tier, '--nosuite'], capture_output=True, text=True)
+        last = [l for l in r.stdout.split('\n') if l.startswith(('DETECTED', 'PATCH'))]
+        line = last[0] if last else 'ERROR ' + (r.stdout + r.stderr)[-200:]
+        cls = [l.split('class=')[1].split(' ')[0] for l in r.stdout.split('\n') if 'VIOLATION' in l and 'class=' in l]
+        if 'DETECTED-BY ' + prop in line:
+            return name, {'status': tier, 'class': cls[0] if cls else '?'}
+        if 'INTERNAL' in r.stdout or not line.startswith('DETECTED'):
+            return name, {'status': 'error', 'detail': line}
+    return name, {'status': 'missed'}
+
+
+dirs = [d for d in sorted(glob.glob('/verif/seeded/C*-*')) if not only or os.path.basename(d) in only]
+with ThreadPoolExecutor(max_workers=int(os.environ.get('RECHECK_JOBS', '2'))) as ex:
+    for name, r in ex.map(one, dirs):
+        res[name] = r
+        print(name, r, flush=True)
+old.update(res)
+res = dict(sorted(old.items()))
+json.dump(res, open('/verif/seeded/RECHECK.json', 'w'), indent=1, sort_keys=True)
+cnt = {}
+for r in res.values():
+    cnt[r['status']] = cnt.get(r['status'], 0) + 1
+lines = ['%s %s' % (n, json.dumps(r, sort_keys=True)) for n, r in res.items()]
+lines.append('%d seeds: %s' % (len(res), ', '.join('%d %s' % (v, k) for k, v in sorted(cnt.items()))))
+open('/verif/seeded/RECHECK.txt', 'w').write('\n'.join(lines) + '\n')
+print(lines[-1])
